@@ -6,6 +6,15 @@ props = [json.loads(l) for l in open(os.path.join(V, "properties.jsonl"))]
 
 # property -> (level text, level note, technique, design_ref)
 CLAIMED = {
+ "C09": ("TLC (MC_C09) applies the stages analyze_trait -> gen_trait_def to every subset of 13 trait components under 8 trait-mode option sets "
+         "(29 184 inputs) and checks that nothing the user wrote is lost except on three named deviation classes. The traits are expanded by the "
+         "real macro; the projector parses the user's trait (hook input) and the emitted trait (hook output) with syn, independently of the macro, "
+         "into component-wise normal forms; TLC (Trace_C09) compares them conjunct by conjunct (name, visibility, unsafety, generics, supertraits, "
+         "where clause, attributes kept in order, only macro-owned attributes added, method attributes and signatures with the documented async "
+         "rewrite and exact Output, default bodies, associated types) and compares the failing conjuncts with the model's prediction (zero drift).",
+         "quick: subsets of size <= 2 and >= 11 plus 1500 seeded ones; thorough: all; three design limitations are recorded in known_findings.json (unsafe trait, default bodies, associated types)",
+         "TLA+ model of the trait round trip checked by TLC + TLC trace validation comparing projected input and output traits of real expansions",
+         "7/C09"),
  "C11": ("TLC (MC_C11) models the positional `unmock_with` list the generator attaches (f | f(args) | _ per method; none for entraited traits) and "
          "drives mock / partial / impl / partial-panics scenarios through the Level-1 machine (Runtime: own function, mock object as dependency, "
          "arguments in order; mock conjuncts: the answer function sees the caller's arguments in order, the configured answer is returned, the real "
